@@ -241,6 +241,12 @@ def closing_oracle(ctx, data, v, real=False):
                             ctx.fail('with duplicate_merged_cells=True the paragraph records (copies aside) are not a sublist of the source paragraphs in the order of their closing tags',
                                      case_payload(data, html=False, dup=True), {'type': ty, 'got': eg['got'][:12]}, {'expected': eg['expected'][:12]},
                                      features=['closing-order', 'sublist'])
+            for path, ok in (((v or {}).get('<uniq>') or {}) if isinstance(v, dict) else {}).items():
+                if ok is True: ctx.count('uniqueIds holds for the part (hypothesis of C02_post_nodup: no source paragraph is recorded twice)' + (' (real documents)' if real else ''))
+                elif ok is False:
+                    good = False
+                    ctx.diff('element identities of a part are not pairwise distinct (hypothesis of C02_post_nodup; the encoder numbers elements in document order)',
+                             case_payload(data, html=False, dup=False), 'distinct', 'not distinct', path=path)
             mp = (v or {}).get('<post>') if isinstance(v, dict) else None
             if isinstance(mp, dict):
                 for path, pe in co['paths'].items():
